@@ -14,6 +14,7 @@ echo "== suite with change (must be 2176 passed)"; cargo nextest run --workspace
 git diff -- src > $W/patch.confirmed.diff
 mkdir -p /verif/seeded/$ID && cp $W/patch.confirmed.diff /verif/seeded/$ID/patch.diff && cp $W/demo_$lc.rs /verif/seeded/$ID/ 2>/dev/null; cp $W/meta.json /verif/seeded/$ID/meta.agent.json 2>/dev/null
 cd /verif
+export VERIF_EVIDENCE_DIR=/tmp/seeded_evidence
 git -C /repo apply /verif/seeded/$ID/patch.diff || { echo "patch does not apply to /repo HEAD"; exit 1; }
 echo "== ./check $P against the change"; ./check $P > /tmp/check_$ID.log 2>&1; echo "exit=$?" >> /tmp/check_$ID.log; grep -E "VIOLATION|KNOWN|\[check\] C|exit=" /tmp/check_$ID.log
 git -C /repo checkout -- . ; git -C /repo status --short | head -3
